@@ -378,6 +378,17 @@ def seq_induction(rep):
             raise ToolError(f"Apalache control: with '{what}' the invariant is still inductive - it says nothing:\n{out[-800:]}")
         rep.notes.append(f"Apalache control: '{what}' breaks inductiveness, as it must")
     rep.extra["symbolic_obligations"] = rep.extra.get("symbolic_obligations", 0) + 2
+    # the same invariant as a TLAPS proof (no bound on anything: integers, behaviour length), checked by tlapm
+    d = os.path.join(apa, "tlaps")
+    os.makedirs(d, exist_ok=True)
+    for f in ("SeqInd.tla", "SeqIndProof.tla"):
+        shutil.copy(os.path.join(cb.SPEC, f), d)
+    p = cb.run(["timeout", "900", "tlapm", "--threads", "8", "--cleanfp", "SeqIndProof.tla"], cwd=d, timeout=950)
+    m = re.search(r"All (\d+) obligations proved", p.stdout + p.stderr)
+    if not m:
+        raise ToolError("tlapm: SeqIndProof.tla is not proved:\n" + (p.stdout + p.stderr)[-1500:])
+    rep.notes.append(f"TLAPS (SeqIndProof.tla): Init => IndInv, IndInv /\\ [Next]_vars => IndInv', Spec => [](AcceptOk /\\ CacheOk /\\ ServeOk): all {m.group(1)} obligations proved ({p.wall:.0f}s)")
+    rep.extra["symbolic_obligations"] += int(m.group(1))
     shutil.rmtree(apa, ignore_errors=True)
 
 
